@@ -100,3 +100,7 @@ func H_DEV_Assoc(shape int) {
 	verifrt.Observe("log", s.Kinds())
 	verifrt.Observe("owner", o)
 }
+
+func H_DEV_Nop(shape int) {}
+
+func H_DEV_Open(shape int) { openDry(stubDialector{}) }
